@@ -177,11 +177,13 @@ CLAIMED['C08'] = {
 
 # additions of the closing hours (sixth seeding round and its side remarks), appended to the texts above
 _EXTRA = {
+    'C07': 'The state comparison includes mutable default arguments of every function and method; a target whose group-exchange probes get no answer shows no size of an earlier target.',
+    'C05': 'The round trip also holds for client audits (-c -M, then -c -P) through the real listening socket path.',
     'C02': 'Client audits fold the same way; a policy audit of an out-dated built-in policy still maps passed/failed to 0/3.',
     'C03': 'A name that lives in two categories is looked up in both with each category\'s notes; unknown names of Terrapin-relevant shape stay unknown in every view.',
     'C04': 'With the whole table advertised at once exactly the rule\'s rows change (no row edited through another row).',
-    'C08': 'Through the real command line a targets file of 1..3 lines yields one JSON array with one element per line; a host name that cannot be IDNA-encoded is a connection error; JSON carries no terminal colour codes.',
-    'C09': 'SSH-1 masks with arbitrary unknown bits still give a complete report; a client audit whose client stalls at any stage terminates (the accepted socket carries the configured timeout); algorithm names reach the terminal in printable ASCII only.',
+    'C08': 'Through the real command line a targets file of 1..3 lines yields one JSON array with one element per line; a host name that cannot be IDNA-encoded is a connection error; JSON carries no terminal colour codes; nothing a peer sends (packet text, pre-banner lines) can pass for the ruler between two blocks or for a target line; with the completion order reversed every error element names the target it is about.',
+    'C09': 'SSH-1 masks with arbitrary unknown bits still give a complete report; a client audit whose client stalls at any stage terminates (the accepted socket carries the configured timeout); algorithm names reach the terminal in printable ASCII only, in the recommendation lines too; debug packets in front of arbitrary first-connection bytes change nothing.',
     'C10': 'A packet is sent completely when the OS accepts only n bytes per call.',
     'C11': 'ECDSA host keys and certificates of the three NIST curves are measured by their own layout (256/384/521 bits) with CA type and size; RSA keys and CAs up to 16384 bits; a blob whose length fields exceed the received data is rejected; a failed first RSA probe falls back to the next family name; the master table is untouched.',
     'C12': 'If one probe of the sequence (any position) gets no answer the reported size is still the smallest modulus actually handed out, or none; moduli of 8191/8192 bits are measured.',
@@ -190,7 +192,7 @@ _EXTRA = {
     'C15': 'The exit status with -j/-jj equals the text report\'s (also for general-section findings); stdout stays one JSON document when the probe phases run into refused, silent or reset connections.',
     'C17': 'Lift: the real Policy.evaluate of every built-in policy rejects a peer that offers one extra algorithm rated as a failure (every such name, category and position).',
     'C18': 'Every spelling of the IP-version options (long, short, bundled, mixed) yields the requested order; the target label is shown at every output level, in policy reports too.',
-    'C19': 'Probe connections that are reset, closed or silent before the banner, and names resolving to several addresses, keep the connection bounds; a socket whose shutdown() fails is still closed.',
+    'C19': 'Probe connections that are reset, closed or silent before the banner, and names resolving to several addresses, keep the connection bounds; a socket whose shutdown() fails is still closed; a rate-check socket whose connect is refused at once is closed on the spot.',
 }
 for _k, _v in _EXTRA.items():
     CLAIMED[_k]['text'] = CLAIMED[_k]['text'].rstrip() + ' ' + _v
